@@ -196,6 +196,30 @@ class XDateTime:
     def date(self):
         return _real.date.fromordinal(self.o)
 
+    def replace(self, year=None, month=None, day=None, hour=None, minute=None, second=None, microsecond=None, tzinfo=None):
+        o = self.o
+        if year is not None or month is not None or day is not None:
+            y, m, d = _ymd(self.o)
+            o = _real.date(year if year is not None else y, month if month is not None else m, day if day is not None else d).toordinal()
+        if hour is None and minute is None and second is None and microsecond is None:
+            return XDateTime._mk(o, self.us)
+        us = self.us
+        if isinstance(us, int):
+            h, rem = divmod(us, 3600 * 10 ** 6)
+            mi, rem = divmod(rem, 60 * 10 ** 6)
+            se, mu = divmod(rem, 10 ** 6)
+        else:
+            # components of a symbolic time of day as integer terms
+            h = us // (3600 * 10 ** 6)
+            mi = (us % (3600 * 10 ** 6)) // (60 * 10 ** 6)
+            se = (us % (60 * 10 ** 6)) // 10 ** 6
+            mu = us % 10 ** 6
+        h = hour if hour is not None else h
+        mi = minute if minute is not None else mi
+        se = second if second is not None else se
+        mu = microsecond if microsecond is not None else mu
+        return XDateTime._mk(o, ((h * 60 + mi) * 60 + se) * 10 ** 6 + mu)
+
     def midnight(self):
         return XDateTime._mk(self.o, 0)
 
